@@ -61,7 +61,9 @@ def programs(tier: str):
     for k in BOUNDS[tier]["items"]:
         for end in ("normal", "error"):
             for feature in FEATURES:
-                for created in ("in-scope", "outside"):
+                for created in ("in-scope", "outside", "in-two-scopes"):
+                    if created == "in-two-scopes" and (feature not in ("plain", "record") or k == 0):
+                        continue
                     for place in PLACES:
                         modes = [["full"], ["unstarted"]]
                         for j in range(0, k + (1 if end == "error" else 0)):
@@ -261,7 +263,16 @@ def execute(program, ch: Chooser) -> Result:  # noqa: C901, PLR0912, PLR0915
 
             other = loop.create_task(other_task())  # started outside any scope
             await asyncio.sleep(0)
-        if created == "in-scope":
+        if created == "in-two-scopes":
+            async with ctx.scope("grand", completion=cb("grand")):
+                async with ctx.scope("creator", a1, completion=cb("creator")):
+                    stream_box["s"] = ctx.stream(source)
+                    if place == "same":
+                        await consume(stream_box.pop("s"))
+                    elif place == "other-task":
+                        handoff.set_result(stream_box.pop("s"))
+                        await other
+        elif created == "in-scope":
             async with ctx.scope("creator", a1, completion=cb("creator")):
                 stream_box["s"] = ctx.stream(source)
                 if place == "same":
@@ -335,7 +346,7 @@ def execute(program, ch: Chooser) -> Result:  # noqa: C901, PLR0912, PLR0915
         if mode[0] == "full" and outcome_box.get("out") in ("end", "error") and len(cleanup) != 1:
             viols.append(viol("d-closed-means-finalised", f"exhausted/{placement}", 1, len(cleanup)))
         # (b) the generator body sees the creation environment
-        want_inside = ["inst", "A#1"] if created == "in-scope" else ["constructed"]
+        want_inside = ["inst", "A#1"] if created != "outside" else ["constructed"]
         for where, tok in inside:
             if where == "nested-item":
                 continue
@@ -353,10 +364,12 @@ def execute(program, ch: Chooser) -> Result:  # noqa: C901, PLR0912, PLR0915
         # (d) scopes complete: the creating scope's completion fires exactly once
         # (a stream that is never started and dropped is neither exhausted nor closed: outside
         #  the statement - its creator is not required to complete)
-        if created == "in-scope" and mode[0] != "unstarted" and completions.get("creator", 0) != 1:
+        if created != "outside" and mode[0] != "unstarted" and completions.get("creator", 0) != 1:
             viols.append(
                 viol("d-stream-scope-completes", f"{mode[0]}/{placement}", "creator completion fired once", completions.get("creator", 0))
             )
+        if created == "in-two-scopes" and mode[0] != "unstarted" and completions.get("grand", 0) != 1:
+            viols.append(viol("d-stream-scope-completes", f"enclosing-scope/{mode[0]}/{placement}", "outer creating scope completes once", completions.get("grand", 0)))
         if place == "other-scope" and completions.get("consumer", 0) != 1:
             viols.append(
                 viol("d-consumer-scope-completes", f"{mode[0]}/{placement}", "consumer completion fired once", completions.get("consumer", 0))
@@ -371,7 +384,7 @@ def execute(program, ch: Chooser) -> Result:  # noqa: C901, PLR0912, PLR0915
                 viols.append(viol("d-stream-scope-completes", f"spawned-task-outlives-closed-stream/{mode[0]}", "cancelled with the stream's scope", f"{len(alive)} still running"))
         # a record made by the generator (also by its clean-up code) lands in the stream's own
         # scope: the creating scope sees it in its merged view, not as its own value
-        if feature == "record-cleanup" and created == "in-scope" and mode[0] != "unstarted" and "creator" in records_box:
+        if feature == "record-cleanup" and created != "outside" and mode[0] != "unstarted" and "creator" in records_box:
             rb = records_box["creator"]
             if rb["own"] is not None or 99 not in rb["merged"]:
                 viols.append(viol("b-creation-context", f"cleanup-record-outside-stream-scope/{mode[0]}", {"own": None, "merged": [99]}, rb))
